@@ -371,8 +371,65 @@ func cmdRouter(prop string, args []string) {
 	for i := 0; i < nProj; i++ {
 		ps = append(ps, projgen.Generate(projgen.Stream(o.Seed, "router/project", uint64(i)).U64()&0xffffffff, "router"))
 	}
-	rs.addProjects(ps, o.Workers)
+	// the concrete cases of this property's known findings ride along in the same batch (own tags k0, k1, ...)
+	type knownCase struct {
+		finding   Finding
+		file      string
+		tag       string
+		bp        batchProject
+		violation json.RawMessage
+		signature string
+	}
+	var knownCases []knownCase
+	var tags []string
+	for i := range ps {
+		tags = append(tags, fmt.Sprintf("p%d", i))
+	}
+	for _, f := range loadFindings() {
+		if f.State != "known" || f.Property != prop {
+			continue
+		}
+		for _, rf := range f.ReplayFiles {
+			raw, err := os.ReadFile(filepath.Join(verifDir, rf))
+			if err != nil {
+				harnessFail("known finding %s: %v", f.Signature, err)
+			}
+			var doc struct {
+				Signature string `json:"signature"`
+				Case      struct {
+					BP        batchProject    `json:"batch_project"`
+					Violation json.RawMessage `json:"violation"`
+				} `json:"case"`
+			}
+			if err := json.Unmarshal(raw, &doc); err != nil {
+				harnessFail("known finding file %s: %v", rf, err)
+			}
+			// re-tag: the stored tag (p<n>) would collide with this run's generated projects
+			oldTag, newTag := doc.Case.BP.Tag, fmt.Sprintf("k%d", len(knownCases))
+			re := regexp.MustCompile(`\b` + regexp.QuoteMeta(oldTag) + `\b`)
+			var bp batchProject
+			if err := json.Unmarshal(re.ReplaceAll(mustJSON(doc.Case.BP), []byte(newTag)), &bp); err != nil {
+				harnessFail("known finding file %s: %v", rf, err)
+			}
+			knownCases = append(knownCases, knownCase{finding: f, file: rf, tag: newTag, bp: bp,
+				violation: re.ReplaceAll(doc.Case.Violation, []byte(newTag)), signature: re.ReplaceAllString(doc.Signature, newTag)})
+			ps = append(ps, bp.Project)
+			tags = append(tags, newTag)
+		}
+	}
+	rs.addProjectsTagged(ps, tags, o.Workers)
 	rs.buildBatch()
+	// the exploration runs on the generated projects only
+	var explored []batchProject
+	knownBP := map[string]batchProject{}
+	for _, bp := range rs.projects {
+		if strings.HasPrefix(bp.Tag, "k") {
+			knownBP[bp.Tag] = bp
+		} else {
+			explored = append(explored, bp)
+		}
+	}
+	rs.projects = explored
 	// the workload is split over several processes (one simulation at a time inside each)
 	nProc := o.Workers
 	if nProc > len(rs.projects) {
@@ -389,6 +446,33 @@ func cmdRouter(prop string, args []string) {
 		outs[i] = rs.runBatch(o.Seed, o.Tier, mine, nil)
 	})
 	rep := newReporter(prop)
+	// re-execute the concrete case of every known finding of this property: the KNOWN-FINDING line is printed
+	// whenever the defect is still there, whether or not this run's random workload happens to hit it
+	knownReplayed, knownGone := 0, []string{}
+	for _, kc := range knownCases {
+		bp, ok := knownBP[kc.tag]
+		if !ok {
+			knownGone = append(knownGone, kc.file+" (its project is no longer accepted / compilable)")
+			continue
+		}
+		out := rs.runBatch(o.Seed, o.Tier, []batchProject{bp}, kc.violation)
+		hit := false
+		for _, v := range out.Violations {
+			if v.Property == prop && knownFor(prop, v.Signature) != nil && knownFor(prop, v.Signature).WhatFails == kc.finding.WhatFails {
+				rep.Report(v.Signature, v.Class, v.Message, nil)
+				hit = true
+				break
+			}
+		}
+		if hit {
+			knownReplayed++
+		} else {
+			knownGone = append(knownGone, kc.file)
+		}
+	}
+	for _, g := range knownGone {
+		fmt.Printf("note: the known finding recorded in %s does not reproduce on this tree any more\n", g)
+	}
 	stats := map[string]any{}
 	byTag := map[string]batchProject{}
 	for _, bp := range rs.projects {
@@ -464,6 +548,8 @@ func cmdRouter(prop string, args []string) {
 		"simulated_time":      "no clock in this subsystem (no timers; fiber's test timeout disabled)",
 		"violations_of_other_router_properties_seen": otherProps,
 		"known_findings_matched": rep.KnownMatched(),
+		"known_finding_cases_replayed": knownReplayed,
+		"known_finding_cases_gone":     knownGone,
 		"non_replayable_candidates": len(nonReplayable),
 		"components": map[string]any{
 			"real": []string{"gleece CLI built from /repo's working tree (unmodified)", "the generated routes files for gin, echo, mux, chi, fiber", "gin, echo, gorilla/mux, chi, fiber/fasthttp", "go-playground/validator", "encoding/json", "the spec file gleece wrote (client reads it)"},
@@ -478,4 +564,12 @@ func cmdRouter(prop string, args []string) {
 		"status codes of unserved requests and message texts are not compared",
 	}, rep.Count())
 	finish(o, rep)
+}
+
+func mustJSON(v any) []byte {
+	b, err := json.Marshal(v)
+	if err != nil {
+		harnessFail("%v", err)
+	}
+	return b
 }
